@@ -1,2 +1,208 @@
-// placeholder
+// Contracts for crates/jxl-modular/src/predictor.rs (child module of `predictor`: sees the private state).
+//
+// Standard (18181-1 H.3 neighbourhood, H.4 properties / predictors, H.5 weighted predictor), for the sample at
+// (x, y) of a channel of width `width`:
+//   W   = x > 0 ? ch(x-1, y) : (y > 0 ? ch(x, y-1) : 0)
+//   N   = y > 0 ? ch(x, y-1) : W
+//   NW  = x > 0 && y > 0 ? ch(x-1, y-1) : W
+//   NE  = x + 1 < width && y > 0 ? ch(x+1, y-1) : N
+//   NN  = y > 1 ? ch(x, y-2) : N
+//   NEE = x + 2 < width && y > 0 ? ch(x+2, y-1) : NE
+//   WW  = x > 1 ? ch(x-2, y) : W
+//   predictor 0: 0   1: W   2: N   3: (W + N) Idiv 2   4: abs(N - NW) < abs(W - NW) ? W : N
+//             5: clamp(W + N - NW, min(W, N), max(W, N))   6: (wp prediction + 3) >> 3   7: NE   8: NW   9: WW
+//             10: (W + NW) Idiv 2   11: (N + NW) Idiv 2   12: (N + NE) Idiv 2
+//             13: (6*N - 2*NN + 7*W + WW + NEE + 3*NE + 8) Idiv 16
+//   property  2: y  3: x  4: abs(N)  5: abs(W)  6: N  7: W  8: x > 0 ? W - (property 9 of (x-1, y)) : W
+//             9: W + N - NW  10: W - NW  11: NW - N  12: N - NE  13: N - NN  14: W - WW  15: wp max_error
+//   (properties 0 and 1 -- channel and stream index -- are resolved when the MA tree is flattened, ma.rs; the
+//    per-sample vector holds 0 there.)
+// Values are mathematical integers in the standard; the code stores prediction and properties in i32, so the
+// contract is "code == standard's value wrapped to 32 bits" for ALL neighbour values (exact whenever it fits).
 use super::*;
+
+#[derive(Clone, Copy)]
+pub(crate) struct Nb {
+    w: i64,
+    n: i64,
+    nw: i64,
+    ne: i64,
+    nn: i64,
+    nee: i64,
+    ww: i64,
+}
+
+/// H.3 neighbourhood of (x, y) in a WxH image.
+pub(crate) fn spec_neighbours<const W: usize, const H: usize>(img: &[[i32; W]; H], x: usize, y: usize) -> Nb {
+    let ch = |xx: usize, yy: usize| img[yy][xx] as i64;
+    let w = if x > 0 { ch(x - 1, y) } else if y > 0 { ch(x, y - 1) } else { 0 };
+    let n = if y > 0 { ch(x, y - 1) } else { w };
+    let nw = if x > 0 && y > 0 { ch(x - 1, y - 1) } else { w };
+    let ne = if x + 1 < W && y > 0 { ch(x + 1, y - 1) } else { n };
+    let nn = if y > 1 { ch(x, y - 2) } else { n };
+    let nee = if x + 2 < W && y > 0 { ch(x + 2, y - 1) } else { ne };
+    let ww = if x > 1 { ch(x - 2, y) } else { w };
+    Nb { w, n, nw, ne, nn, nee, ww }
+}
+
+fn abs64(v: i64) -> i64 {
+    if v < 0 { -v } else { v }
+}
+
+/// Table of predictors (all but the weighted one), mathematical integers. `/` truncates toward zero = Idiv.
+pub(crate) fn spec_predict(k: u32, nb: &Nb) -> i64 {
+    let Nb { w, n, nw, ne, nn, nee, ww } = *nb;
+    match k {
+        0 => 0,
+        1 => w,
+        2 => n,
+        3 => (w + n) / 2,
+        4 => {
+            if abs64(n - nw) < abs64(w - nw) { w } else { n }
+        }
+        5 => {
+            let lo = if w < n { w } else { n };
+            let hi = if w < n { n } else { w };
+            let g = w + n - nw;
+            if g < lo { lo } else if g > hi { hi } else { g }
+        }
+        7 => ne,
+        8 => nw,
+        9 => ww,
+        10 => (w + nw) / 2,
+        11 => (n + nw) / 2,
+        12 => (n + ne) / 2,
+        _ => (6 * n - 2 * nn + 7 * w + ww + nee + 3 * ne + 8) / 16,
+    }
+}
+
+/// Property 2..15 (mathematical integers); `prop9_left` = property 9 of the sample to the left (0 at x == 0).
+pub(crate) fn spec_property(p: usize, x: usize, y: usize, nb: &Nb, prop9_left: i64, wp_max_error: i64) -> i64 {
+    let Nb { w, n, nw, ne, nn, nee: _, ww } = *nb;
+    match p {
+        0 | 1 => 0,
+        2 => y as i64,
+        3 => x as i64,
+        4 => abs64(n),
+        5 => abs64(w),
+        6 => n,
+        7 => w,
+        8 => if x > 0 { w - prop9_left } else { w },
+        9 => w + n - nw,
+        10 => w - nw,
+        11 => nw - n,
+        12 => n - ne,
+        13 => n - nn,
+        14 => w - ww,
+        _ => wp_max_error,
+    }
+}
+
+fn fits32(v: i64) -> bool {
+    v >= i32::MIN as i64 && v <= i32::MAX as i64
+}
+
+// ------------------------------------------------------------------------------------------------
+// Predictor numbering of the bitstream (TryFrom<u32>)
+// ------------------------------------------------------------------------------------------------
+#[kani::proof]
+fn predictor_numbering_contract() {
+    let v: u32 = kani::any();
+    match Predictor::try_from(v) {
+        Ok(p) => {
+            assert!(v < 14 && p as u32 == v, "[C03,C01] predictor k of the bitstream is the k-th predictor of the standard's table");
+        }
+        Err(_) => assert!(v >= 14, "[C03,C01] exactly the 14 predictors are accepted"),
+    }
+    kani::cover!(v == 13);
+    kani::cover!(v == 14);
+}
+
+// ------------------------------------------------------------------------------------------------
+// Image-driven contract: PredictorState is driven exactly as decode_single_node_slow (image.rs:894-949) does --
+// rows 0..2 and the first / last two columns with EDGE = true, the interior of rows >= 2 of channels wider than
+// 4 with EDGE = false -- over a fully symbolic WxH image. At a symbolic position, every non-weighted predictor
+// and every property of the real state equals the standard's value computed from the image.
+// ------------------------------------------------------------------------------------------------
+fn predictors_on_image<const W: usize, const H: usize>() {
+    let img: [[i32; W]; H] = kani::any();
+    let px: usize = kani::any();
+    let py: usize = kani::any();
+    kani::assume(px < W && py < H);
+    let k: u32 = kani::any();
+    kani::assume(k < 14 && k != 6);
+    let predictor = match Predictor::try_from(k) {
+        Ok(p) => p,
+        Err(_) => unreachable!(),
+    };
+    let p: usize = kani::any();
+    kani::assume(p < 16);
+
+    let mut st = PredictorState::<i32>::new();
+    st.reset(W as u32, &[], None);
+    let mut y = 0;
+    while y < H {
+        let mut x = 0;
+        while x < W {
+            let edge = !(y >= 2 && W > 4 && x >= 2 && x < W - 2);
+            let check = x == px && y == py;
+            let nb = spec_neighbours::<W, H>(&img, x, y);
+            let prop9_left = if x > 0 {
+                let l = spec_neighbours::<W, H>(&img, x - 1, y);
+                (l.w + l.n - l.nw) as i32 as i64 // the stored (32-bit) property 9 of the left sample
+            } else {
+                0
+            };
+            if edge {
+                let props = st.properties::<true>();
+                if check {
+                    let got = predictor.predict::<i32, true>(&props);
+                    let want = spec_predict(k, &nb);
+                    assert!(got == want as i32, "[C03,C01] Predictor::predict::<EDGE=true> == standard's predictor k wrapped to 32 bits");
+                    if fits32(want) {
+                        assert!(got as i64 == want, "[C03] ... and exactly the standard's value when that fits in int32");
+                    }
+                    let gp = props.get(p);
+                    let wantp = spec_property(p, x, y, &nb, prop9_left, 0);
+                    assert!(gp == wantp as i32, "[C03,C01] Properties::get(p) (EDGE=true) == standard's property p wrapped to 32 bits");
+                }
+                props.record(img[y][x]);
+            } else {
+                let props = st.properties::<false>();
+                if check {
+                    let got = predictor.predict::<i32, false>(&props);
+                    let want = spec_predict(k, &nb);
+                    assert!(got == want as i32, "[C03,C01] Predictor::predict::<EDGE=false> == standard's predictor k wrapped to 32 bits");
+                    if fits32(want) {
+                        assert!(got as i64 == want, "[C03] ... and exactly the standard's value when that fits in int32");
+                    }
+                    let gp = props.get(p);
+                    let wantp = spec_property(p, x, y, &nb, prop9_left, 0);
+                    assert!(gp == wantp as i32, "[C03,C01] Properties::get(p) (EDGE=false) == standard's property p wrapped to 32 bits");
+                }
+                props.record(img[y][x]);
+            }
+            x += 1;
+        }
+        y += 1;
+    }
+    kani::cover!(k == 13 && py == H - 1 && px == W - 1);
+    kani::cover!(k == 4 && px == 0 && py == 0);
+    kani::cover!(p == 8 && px == 1);
+}
+
+macro_rules! image_harness {
+    ($name:ident, $w:literal, $h:literal) => {
+        #[kani::proof]
+        #[kani::unwind(8)]
+        fn $name() {
+            predictors_on_image::<$w, $h>()
+        }
+    };
+}
+image_harness!(predictors_image_1x3, 1, 3);
+image_harness!(predictors_image_2x3, 2, 3);
+image_harness!(predictors_image_3x3, 3, 3);
+image_harness!(predictors_image_4x3, 4, 3);
+image_harness!(predictors_image_5x3, 5, 3);
+image_harness!(predictors_image_6x4, 6, 4);
